@@ -947,6 +947,45 @@ def rule_R36_range_for_each(text, log):
         out = out[:rs] + new + pad + out[end:]
 
 
+def rule_R38_bool_then(text, log):
+    """`B.then(|| E)` -> `(if B { Some(E) } else { None })` (definition of bool::then; only closures without parameters)"""
+    out = text
+    rx = re.compile(r'\.\s*then\s*\(\s*\|\|')
+    while True:
+        mask = code_mask(out)
+        mm = next((m for m in rx.finditer(out) if mask[m.start()]), None)
+        if not mm:
+            return out
+        op = out.index('(', mm.start())
+        cl = match_brace(out, mask, op)
+        clo = out[op + 1:cl].strip()
+        body = clo[2:].strip()
+        rs = _recv_start(out, mask, mm.start())
+        recv = out[rs:mm.start()]
+        new = '(if %s { Some(%s) } else { None })' % (recv.strip(), body)
+        pad = '\n' * max(0, out[rs:cl + 1].count('\n') - new.count('\n'))
+        log.append(('R38', norm_ws(out[rs:cl + 1])[:120], norm_ws(new)[:160]))
+        out = out[:rs] + new + pad + out[cl + 1:]
+
+
+def rule_R39_option_transpose(text, log):
+    """`OPT.transpose()` -> `(match OPT { Some(Ok(v)) => Ok(Some(v)), Some(Err(e)) => Err(e), None => Ok(None) })`
+    (definition of Option<Result<T, E>>::transpose; a Result<Option<T>, E> receiver no longer type-checks: undecided)"""
+    out = text
+    rx = re.compile(r'\.\s*transpose\s*\(\s*\)')
+    while True:
+        mask = code_mask(out)
+        mm = next((m for m in rx.finditer(out) if mask[m.start()]), None)
+        if not mm:
+            return out
+        rs = _recv_start(out, mask, mm.start())
+        recv = out[rs:mm.start()]
+        new = '(match %s { Some(Ok(vx_t)) => Ok(Some(vx_t)), Some(Err(vx_e)) => Err(vx_e), None => Ok(None) })' % recv.strip()
+        pad = '\n' * max(0, out[rs:mm.end()].count('\n') - new.count('\n'))
+        log.append(('R39', norm_ws(out[rs:mm.end()])[:120], norm_ws(new)[:160]))
+        out = out[:rs] + new + pad + out[mm.end():]
+
+
 def rule_R32_or_else(text, log):
     """`OPT.or_else(|| B)` -> `(match OPT { Some(vx_v) => Some(vx_v), None => B })` (definition of Option::or_else)"""
     out = text
@@ -1505,7 +1544,7 @@ class Unit(object):
         self.lost_aids = []
         self.gone_fns = []
         self.late_hints = False
-        self.rules = set(['R1', 'R2', 'ATTR', 'R4', 'R5', 'R6', 'R10', 'R11', 'R14', 'R15', 'R17', 'R22', 'R23', 'R25', 'R26', 'R27', 'R28', 'R29', 'R30', 'R33', 'R35', 'R36'])
+        self.rules = set(['R1', 'R2', 'ATTR', 'R4', 'R5', 'R6', 'R10', 'R11', 'R14', 'R15', 'R17', 'R22', 'R23', 'R25', 'R26', 'R27', 'R28', 'R29', 'R30', 'R33', 'R35', 'R36', 'R38', 'R39'])
         self.unit_props = []
         self.lemmas = []
         self.tmpl_fns = []          # hand-written exec/proof fns in template (name, props)
@@ -1591,6 +1630,10 @@ class Unit(object):
                 text = rule_R35_option_filter(text, log)
             if 'R36' in self.rules:
                 text = rule_R36_range_for_each(text, log)
+            if 'R38' in self.rules:
+                text = rule_R38_bool_then(text, log)
+            if 'R39' in self.rules:
+                text = rule_R39_option_transpose(text, log)
             if 'R34' in self.rules:
                 text = rule_R34_map_err_closure(text, log)
             if 'R31' in self.rules:
